@@ -29,4 +29,4 @@ DELIVERABLES (write them into {wt}/_seeded/):
 2. demo/ — a demonstration: preferably a new integration test file or small Rust program (say where it goes, e.g. crates/udp/tests/seeded_demo.rs, and the exact cargo command to run it) that FAILS with the change and PASSES without it. Put a copy of the file(s) in _seeded/demo/ and make sure they are NOT part of patch.diff.
 3. meta.json — {{"property": "{p['id']}", "summary": "...what the change does...", "needs_to_manifest": "...the specific sequence/input/state...", "files_changed": [...], "demo_cmd": "...", "demo_files": {{"<path relative to repo root>": "<file name under _seeded/demo/>"}}, "ran": ["commands you ran and their outcome"]}}
 
-Before finishing, VERIFY yourself: (a) with the change: existing suite passes, demo fails; (b) `git stash` / revert the change: demo passes. Report the outcome of each. When done, leave the worktree in place (the caller will collect _seeded/ and remove it) but delete {wt}/target to save disk. Reply with a short summary: what you changed, what it needs to manifest, and the verification results.""")
+Before finishing, VERIFY yourself: (a) with the change: existing suite passes, demo fails; (b) with the change reverted (save it with `git diff > /tmp/my.patch`, revert with `git checkout -- <files>`, re-apply with `git apply` - do NOT use `git stash`, the stash is shared between worktrees): demo passes. Report the outcome of each. When done, leave the worktree in place (the caller will collect _seeded/ and remove it) but delete {wt}/target to save disk. Reply with a short summary: what you changed, what it needs to manifest, and the verification results.""")
